@@ -322,6 +322,10 @@ def tasks(tier):
     ts.append(Task('find_order_index', t_find, extra=x, overrides=dict(ov), invariants=INV))
     for kind in ('futures', 'spot'):
         ts.append(Task(f'init.{kind}', t_init(kind), extra=dict(x), overrides=dict(ov)))
+    # A-1 (floats as reals) is probed where a decimal sum decides whether the position is flat: entries a, b and an exit for the decimal
+    # total must leave size 0 (shared with C06, bounded native)
+    import props.C06 as P6
+    ts.append(Task('float-boundary', P6.t_float_boundary, extra=dict(x, bounded='98 decimal histories on the grid 0.05..2.2 (native, binary floats)')))
     return ts
 
 
